@@ -352,7 +352,7 @@ def _judge(res, case, si, impl):
     one["script"] = s
     if impl["trace"][si] != impl["ref"][si]:
         i = next(j for j, (a, b) in enumerate(zip(impl["trace"][si], impl["ref"][si])) if a != b)
-        what = "close" if s[i][0] == "close" else (s[i][0] + ("-" + s[i][1] if s[i][0] == "throw" else ""))
+        what = s[i][0]
         res.violations.append(
             C.Violation(
                 f"{case['wrapper']}-differs-from-python-try-statement-on-{what}",
